@@ -459,6 +459,8 @@ def generate(rng, tier):
         sched = rng.choice([[len(s)], [len(head), len(s)], [len(head) + (cl or 0) // 2, len(s)], [len(head) - 1, 1, 1, len(s)],
                             rand_sched(rng, len(s), 4)])
         limit = rng.choice([BIG_LIMIT, BIG_LIMIT, BIG_LIMIT, 2, 50])
+        if i % 2 == 1 and any(h[0].lower() == b"range" for h in g[3]):
+            i = 0       # a Range header makes the pipeline answer 206 with a slice of the echo (C09's business): only through accept
         if i % 2 == 0:
             cases.append(mkaccept(cut_steps(s, sched), "accept", dh=None if has_host else rng.choice([None, b"d.host"]), limit=limit, g=g))
         else:
